@@ -135,6 +135,9 @@ pub fn scenario(g: &mut G, ctx: &RunCtx) -> RunReport {
     if g.chance(1, 10) {
         return desync_scenario(g, ctx);
     }
+    if g.chance(1, 12) {
+        return bigchunk_scenario(g, ctx);
+    }
     let ran = bodyx::run(&d.plan, ctx, false);
     let mut stats = Stats::default();
     stats.absorb(&ran.history);
@@ -290,6 +293,95 @@ fn coded_oracle(d: &Damaged, o: &Observed, payload: &[u8], z: &[u8], coding: &st
                 Ok(_) => Verdict::Pass,
             }
         }
+    }
+}
+
+/// Chunks larger than the reader's 64 KiB piece, damaged *behind* the first piece (where a reader that
+/// treats the middle of a large chunk as a special case is on that path), read with buffers smaller than
+/// what remains of the chunk.
+fn bigchunk_scenario(g: &mut G, ctx: &RunCtx) -> RunReport {
+    g.probe("damage-behind-the-first-64k-piece-of-a-chunk");
+    let first = 65_537 + g.usize_below(if ctx.thorough { 200_000 } else { 70_000 });
+    let second = if g.chance(1, 3) { 65_537 + g.usize_below(20_000) } else { 0 };
+    let lens: Vec<usize> = if second > 0 { vec![first, second] } else { vec![first] };
+    let total: usize = lens.iter().sum();
+    let payload = g.payload(total);
+    let chunks: Vec<httpref::ChunkSpec> = lens.iter().map(|n| httpref::ChunkSpec { len: *n, size_line: format!("{:x}", n).into_bytes(), eol_size: b"\r\n", eol_data: b"\r\n" }).collect();
+    let headers = vec![("Transfer-Encoding".to_string(), b"chunked".to_vec())];
+    let mut wire = httpref::Wire::default();
+    wire.bytes = httpref::encode_head(200, "OK", &headers);
+    wire.head_len = wire.bytes.len();
+    httpref::encode_body(&mut wire, Framing::Chunked, &payload, &chunks, b"0", &[]);
+    let mut plan = bodyx::plan_from_payload(g, payload.clone(), vec![]);
+    plan.framing = Framing::Chunked;
+    plan.chunk_lens = lens.clone();
+    plan.chunk_style = lens.iter().map(|n| format!("{}:0", n)).collect();
+    plan.extra_headers = headers;
+    plan.declared_len = total;
+    // where: behind the first 64 KiB of a chunk's data, up to and including its line ending
+    let c = wire.chunk_map[g.usize_below(wire.chunk_map.len())];
+    let lo = c.1 + 65_536;
+    let k = match g.below(4) {
+        0 => lo + g.usize_below(3),
+        1 => c.2 - 1 - g.usize_below(3),
+        _ => lo + g.usize_below(c.2 - lo),
+    };
+    let dmg = match g.below(4) {
+        0 => Damage::CutRst,
+        1 => Damage::Gap,
+        _ => Damage::CutFin,
+    };
+    let delivered: Vec<u8>;
+    match dmg {
+        Damage::Gap => {
+            let (s1, name) = gen::segmentation(g, k, &wire.targets.clone());
+            let (s2, _) = gen::segmentation(g, wire.bytes.len() - k, &[]);
+            let mut segs = s1.clone();
+            segs.extend_from_slice(&s2);
+            let mut sc = Script::from_wire(&wire.bytes, &segs, End::Fin);
+            plan.read_timeout_ms = *g.pick(&[50u64, 1000]);
+            sc.wait_before(s1.len(), (plan.read_timeout_ms + 1 + g.below(50)) * NS_PER_MS);
+            plan.script = sc;
+            plan.seg_name = name;
+            plan.nsegs = segs.len();
+            delivered = wire.bytes.clone();
+        }
+        _ => {
+            let (segs, name) = gen::segmentation(g, k, &wire.targets.clone());
+            plan.end = if dmg == Damage::CutFin { End::Fin } else { End::Rst };
+            plan.script = Script::from_wire(&wire.bytes[..k], &segs, plan.end);
+            plan.seg_name = name;
+            plan.nsegs = segs.len();
+            delivered = wire.bytes[..k].to_vec();
+        }
+    }
+    plan.cut_at = Some(k);
+    plan.damage = format!("{:?}:at={}:behind-the-first-piece", dmg, k);
+    // small buffers (smaller than what is left of the chunk) as well as the usual schedules
+    plan.read_mode = if g.chance(1, 2) {
+        ReadMode::Sizes(vec![*g.pick(&[1usize, 7, 100, 1024, 4000])], "small-fixed")
+    } else {
+        let (v, n) = gen::read_sizes(g);
+        ReadMode::Sizes(v, n)
+    };
+    plan.rereads = g.below(4) as usize;
+    plan.wire = wire;
+    let d = Damaged { plan, damage: dmg, delivered };
+    let ran = bodyx::run(&d.plan, ctx, false);
+    let mut stats = Stats::default();
+    stats.absorb(&ran.history);
+    let verdict = match &ran.observed {
+        None => violation("hang", format!("run torn down: deadlock={} event_cap={}", ran.history.deadlock, ran.history.event_cap)),
+        Some(Err(p)) => violation(format!("panic:{}", panic_site(p)), p.clone()),
+        Some(Ok(o)) => oracle(&d, o),
+    };
+    RunReport {
+        verdict,
+        shape: format!("bigchunk/{}", d.plan.shape()),
+        nontrivial: true,
+        stats,
+        sched_tape: ran.sched_tape,
+        describe: if ctx.describe { format!("damage behind the first 64 KiB piece of a chunk; {}", d.plan.describe()) } else { String::new() },
     }
 }
 
